@@ -26,23 +26,21 @@ def run(res, tier):
     quick = tier == "quick"
     kc.model_check(res, maxcyc=1)
     with scratch("c01_") as sdir:
-        c = kc.Corpus(res, "c01")
         grid = kc.grid_designs()
         if quick:
             grid = grid[::3]
-        c.add(grid)
-        c.add(kc.rand_designs("c01r", 40 if quick else 600))
-        c.load(sdir)
-        c.run_modes(kernel.MODES, cycles=3 if quick else 8, seeds=(0, 1) if quick else (0, 1, 2, 3, 4, 5))
-        c.run_forced(limit=6 if quick else 120, cycles=2 if quick else 4,
-                     only=(lambda d: d.family == "grid") if quick else None)
-        c.run_ff_perms(limit=6 if quick else 24, cycles=3 if quick else 6)
-        verdicts = c.validate("C01")
-        c.canaries(verdicts)
+        designs = grid + kc.rand_designs("c01r", 40 if quick else 600)
+
+        def drive(c):
+            c.run_modes(kernel.MODES, cycles=3 if quick else 8, seeds=(0, 1) if quick else (0, 1, 2, 3, 4, 5))
+            c.run_forced(limit=6 if quick else 120, cycles=2 if quick else 4,
+                         only=(lambda d: d.family == "grid") if quick else None)
+            c.run_ff_perms(limit=6 if quick else 24, cycles=3 if quick else 6)
+        c, ndesigns = kc.run_chunked(res, "c01", "C01", sdir, designs, len(designs) if quick else 60, drive)
         res.sample({"design": c.djs[0]["name"], "source": c.designs[0].py_source(),
                     "trace_head": c.traces[1]["ev"][:6]})
         res.sample({"design": c.djs[-1]["name"], "mode": c.traces[-1]["mode"], "events": len(c.traces[-1]["ev"])})
-    res.note("designs", len(c.designs))
+    res.note("designs", ndesigns)
     res.note("rule", "a case = (design, pass group, tie-break seed | forced linear extension | forced ff permutation); "
              "designs: systematic writer-shape x reader-shape grid + seeded random dataflow networks")
     res.assume("generated designs only: widths <= 8, block-level acyclic, no latches (every comb-driven bit is "
